@@ -239,11 +239,11 @@ def _pred_table(ctx, F, c, label):
     return {"table": table, "kinds": kinds, "has_dir": has_dir}
 
 
-def _commit(ctx):
+def _commit(ctx, R="C01.D3"):
     F = ctx.F
     b = F.one(MIG + "::commit_migration")
     if b is None:
-        ctx.lost("C01.D3", "commit_migration", "function not found")
+        ctx.lost(R, "commit_migration", "function not found")
         return
     ctx.analysed(b)
     preds = []
@@ -253,13 +253,13 @@ def _commit(ctx):
             if pt is not None:
                 preds.append((c, pt))
                 ctx.analysed(c)
-    if not ctx.floor("C01.D3", "matching predicates in commit_migration", len(preds), 4):
+    if not ctx.floor(R, "matching predicates in commit_migration", len(preds), 4):
         return
     shapes = {}
     for c, pt in preds:
         t = pt["table"]
         if any(v is None for v in t.values()):
-            ctx.lost("C01.D3", "predicate:%s" % c.path.rsplit("::", 2)[-2] + c.path.rsplit("::", 1)[-1], "predicate value is not a constant under the assumed comparison outcomes: %s" % t)
+            ctx.lost(R, "predicate:%s" % c.path.rsplit("::", 2)[-2] + c.path.rsplit("::", 1)[-1], "predicate value is not a constant under the assumed comparison outcomes: %s" % t)
             continue
         true_at = sorted(k for k, v in t.items() if v == 1)
         false_at = sorted(k for k, v in t.items() if v == 0)
@@ -274,10 +274,10 @@ def _commit(ctx):
         else:
             shape = "other"
         shapes.setdefault(shape, []).append(c)
-        ctx.check(shape != "other", "C01.D3", "predicate:%s" % c.path.split("commit_migration::", 1)[-1], site(c),
+        ctx.check(shape != "other", R, "predicate:%s" % c.path.split("commit_migration::", 1)[-1], site(c),
                   ok="predicate = %s (true exactly at range=, epoch/meta=, direction %s)" % (shape, true_at if len(true_at) == 1 else "not " + str(false_at)),
                   bad="predicate does not select by (range list, epoch/meta, direction): true at %s" % true_at)
-    ctx.check(len(shapes.get("select-migrating", [])) >= 1 and len(shapes.get("select-importing", [])) >= 2 and len(shapes.get("retain-all-but-migrating", [])) >= 1, "C01.D3", "predicate-set", site(b),
+    ctx.check(len(shapes.get("select-migrating", [])) >= 1 and len(shapes.get("select-importing", [])) >= 2 and len(shapes.get("retain-all-but-migrating", [])) >= 1, R, "predicate-set", site(b),
               ok="find(migrating), find(importing), retain(!migrating twin), position(importing twin) all present", bad="predicate shapes found: %s" % {k: len(v) for k, v in shapes.items()})
     # both lookups succeed before the first write
     eff = Effects(F, classify, classify_type)
@@ -288,21 +288,21 @@ def _commit(ctx):
         av = agg_variant_of(du, t["args"][1])
         if av and av[1] == "MigrationTaskNotFound":
             notfound.append(bb)
-    if ctx.floor("C01.D3", "ok_or(MigrationTaskNotFound) lookups", len(notfound), 2) and ctx.floor("C01.D3", "content writes in commit_migration", len(writes), 2):
+    if ctx.floor(R, "ok_or(MigrationTaskNotFound) lookups", len(notfound), 2) and ctx.floor(R, "content writes in commit_migration", len(writes), 2):
         dom = cfg.dominators(b)
         for e in writes:
             n = sum(1 for nb in notfound if nb in dom.get(e.bb, ()))
-            ctx.check(n >= 2, "C01.D3", "both-twins-found-before:%s" % e.desc.replace(" ", "_")[:60], site(b, e.bb, e.idx),
+            ctx.check(n >= 2, R, "both-twins-found-before:%s" % e.desc.replace(" ", "_")[:60], site(b, e.bb, e.idx),
                       ok="dominated by both twin lookups", bad="%s is not dominated by both MigrationTaskNotFound lookups (%d)" % (e.desc, n))
     # the removed importing ranges are merged into / become the stable slots
     merges = calls_to(b, "RangeList::merge_another")
-    if ctx.floor("C01.D3", "merge of committed ranges", len(merges), 1):
+    if ctx.floor(R, "merge of committed ranges", len(merges), 1):
         for bb, t in merges:
             arg = du.slice_operand(t["args"][1])
             recv = du.slice_operand(t["args"][0])
-            ctx.check(arg.has_call("Vec::remove") or arg.has_call("find_map"), "C01.D3", "merge-source", site(b, bb), ok="merged ranges are the removed importing entry's", bad="merge_another is not fed by the removed importing entry")
-            ctx.check(recv.has_field("ChunkStore", "stable_slots"), "C01.D3", "merge-target", site(b, bb), ok="merged into the chunk's stable_slots", bad="merge target is not stable_slots")
-    ctx.check(bool(calls_to(b, "compact_slots")), "C01.D3", "compact", site(b), ok="compact_slots follows", bad="compact_slots not called")
+            ctx.check(arg.has_call("Vec::remove") or arg.has_call("find_map"), R, "merge-source", site(b, bb), ok="merged ranges are the removed importing entry's", bad="merge_another is not fed by the removed importing entry")
+            ctx.check(recv.has_field("ChunkStore", "stable_slots"), R, "merge-target", site(b, bb), ok="merged into the chunk's stable_slots", bad="merge target is not stable_slots")
+    ctx.check(bool(calls_to(b, "compact_slots")), R, "compact", site(b), ok="compact_slots follows", bad="compact_slots not called")
 
 
 def _who_may_write(ctx):
